@@ -49,8 +49,8 @@ def cmd_import(prop, which, src="/tmp/seed"):
     t.mkdir(parents=True, exist_ok=True)
     shutil.copy(s / "patch.diff", t / "patch.diff")
     demo = (s / "demo.py").read_text()
-    demo = re.sub(r'sys\.path\.insert\(0,\s*["\']/tmp/seed/C\d+["\']\)',
-                  'sys.path.insert(0, __import__("os").environ.get("GSCRIB_REPO", "/repo"))', demo)
+    demo = re.sub(r'["\']/tmp/seed/C\d+(/?)["\']',
+                  lambda m: '(__import__("os").environ.get("GSCRIB_REPO", "/repo") + "%s")' % m.group(1), demo)
     (t / "demo.py").write_text(demo)
     if (s / "notes.md").exists():
         shutil.copy(s / "notes.md", t / "notes.md")
